@@ -7,16 +7,29 @@ Section TcpProofs.
   Variable CopyBuf : N.
   Hypothesis HCB : 0 < CopyBuf.
   Variables sA sB : list byte.     (* everything endpoint A / B will ever send *)
+  Variables cA cB : wcfg.          (* how endpoint A / B is handed to the relay (raw conn, wrapper configuration) *)
 
   Definition nz (p : tpc) : N := match p with PDone => 0 | _ => 1 end.
+  (* CloseWrite calls reaching the endpoint / closeWriteFunc calls / Close calls reaching it, per configuration *)
+  Definition ncw (c : wcfg) : N := match close_write_dispatch c with HcWriter => 1 | _ => 0 end.
+  Definition ncwf (c : wcfg) : N := match close_write_dispatch c with HcFunc => 1 | _ => 0 end.
+  Definition ncl (c : wcfg) : N := if close_reaches_endpoint c then 1 else 0.
+
+  (* THE wrapper fact: in no configuration does the half-close dispatch amount to a full Close *)
+  Lemma dispatch_never_closes (c : wcfg) : close_write_dispatch c <> HcClose.
+  Proof.
+    unfold close_write_dispatch.
+    destruct (ep_kind c =? 0); [discriminate|]. destruct (ep_kind c =? 1); [discriminate|].
+    destruct (ep_cwfunc c); [discriminate|]. destruct (ep_writer_cw c); discriminate.
+  Qed.
 
   (* what holds of direction D (no write fault scripted) while its copier is at pc *)
-  Definition dinv (data : list byte) (pc : tpc) (D : dirst) : Prop :=
-    d_wlimit D = None /\
+  Definition dinv (data : list byte) (cfg : wcfg) (pc : tpc) (D : dirst) : Prop :=
+    (d_wlimit D = None /\ d_cfg D = cfg) /\
     match pc with
-    | PLoop total => data = d_out D ++ rest (t_rd (d_rd D)) /\ d_cw D = 0 /\ total = lenN (d_out D) /\ d_err D = 0
-    | PHalf => d_out D = data /\ d_cw D = 0 /\ d_bytes D = lenN data
-    | PWg | PDone => d_out D = data /\ d_cw D = 1 /\ d_bytes D = lenN data
+    | PLoop total => data = d_out D ++ rest (t_rd (d_rd D)) /\ (d_cw D = 0 /\ d_cwf D = 0) /\ total = lenN (d_out D) /\ d_err D = 0
+    | PHalf => d_out D = data /\ (d_cw D = 0 /\ d_cwf D = 0) /\ d_bytes D = lenN data
+    | PWg | PDone => d_out D = data /\ (d_cw D = ncw cfg /\ d_cwf D = ncwf cfg) /\ d_bytes D = lenN data
     | _ => False
     end.
 
@@ -24,69 +37,74 @@ Section TcpProofs.
     match pm with
     | MWait | MCloseA => sh_closed_a sh = false /\ sh_closed_b sh = false /\ sh_ncl_a sh = 0 /\ sh_ncl_b sh = 0 /\ sh_ret sh = false
                          /\ (pm = MCloseA -> sh_wg sh = 0)
-    | MCloseB => sh_wg sh = 0 /\ sh_ncl_a sh = 1 /\ sh_ncl_b sh = 0 /\ sh_ret sh = false
-    | MRet => sh_wg sh = 0 /\ sh_ncl_a sh = 1 /\ sh_ncl_b sh = 1 /\ sh_ret sh = false
-    | PDone => sh_wg sh = 0 /\ sh_ncl_a sh = 1 /\ sh_ncl_b sh = 1 /\ sh_ret sh = true
+    | MCloseB => sh_wg sh = 0 /\ sh_ncl_a sh = ncl cA /\ sh_ncl_b sh = 0 /\ sh_ret sh = false
+    | MRet => sh_wg sh = 0 /\ sh_ncl_a sh = ncl cA /\ sh_ncl_b sh = ncl cB /\ sh_ret sh = false
+    | PDone => sh_wg sh = 0 /\ sh_ncl_a sh = ncl cA /\ sh_ncl_b sh = ncl cB /\ sh_ret sh = true
     | _ => False
     end.
 
   Definition Inv (s : st tsh (nat * tpc)) : Prop :=
     exists p0 p1 pm, snd s = [(0%nat, p0); (1%nat, p1); (2%nat, pm)] /\
-      dinv sA p0 (sh_d0 (fst s)) /\ dinv sB p1 (sh_d1 (fst s)) /\
+      dinv sA cB p0 (sh_d0 (fst s)) /\ dinv sB cA p1 (sh_d1 (fst s)) /\
       sh_wg (fst s) = nz p0 + nz p1 /\ sh_io_after_close (fst s) = 0 /\ minv pm (fst s).
 
-  Lemma loop_iter_inv data total D :
-    dinv data (PLoop total) D ->
-    exists pc' D', loop_iter CopyBuf false false total D = (pc', D', 0) /\ dinv data pc' D' /\ nz pc' = 1.
+  Lemma loop_iter_inv data cfg total D :
+    dinv data cfg (PLoop total) D ->
+    exists pc' D', loop_iter CopyBuf false false total D = (pc', D', 0) /\ dinv data cfg pc' D' /\ nz pc' = 1.
   Proof.
-    intros (Hwl & Hd & Hcw & Htot & Herr). unfold loop_iter.
+    intros ((Hwl & Hcfg) & Hd & Hcw & Htot & Herr). unfold loop_iter, d_with.
     destruct (tread_cases CopyBuf (d_rd D) HCB)
       as [[Hr Ht] | [(got & t' & Ht & Hr & Hg & He) | (got & t' & Ht & Hr & Hg & Hr')]]; rewrite Ht.
     - cbn [is_nil negb andb]. eexists; eexists. split; [reflexivity|]. split; [|reflexivity].
-      split; [cbn [d_wlimit]; auto|]. cbn [d_out d_cw d_bytes d_rd]. rewrite Hr, app_nil_r in Hd. repeat split; auto.
-      rewrite Hd. lia.
+      split; [cbn [d_wlimit d_cfg]; auto|]. cbn [d_out d_cw d_cwf d_bytes d_rd]. rewrite Hr, app_nil_r in Hd.
+      split; [auto|]. split; [exact Hcw|]. rewrite Hd. lia.
     - destruct got as [|g gs]; [cbn in Hg; lia|]. cbn [is_nil negb andb]. rewrite Hwl.
       replace (0 =? 0) with true by reflexivity. cbn [negb andb].
       rewrite N.eqb_refl. cbn [negb].
       eexists; eexists. split; [reflexivity|]. split; [|reflexivity].
-      split; [cbn [d_wlimit]; auto|]. cbn [d_out d_cw d_bytes d_rd d_err]. repeat split; auto.
-      + rewrite Hd, Hr. now rewrite app_assoc.
-      + rewrite lenN_app. lia.
+      split; [cbn [d_wlimit d_cfg]; auto|]. cbn [d_out d_cw d_cwf d_bytes d_rd d_err].
+      split; [rewrite Hd, Hr; now rewrite app_assoc|]. split; [exact Hcw|]. split; [rewrite lenN_app; lia|exact Herr].
     - destruct got as [|g gs]; [cbn in Hg; lia|]. cbn [is_nil negb andb]. rewrite Hwl.
       replace (0 =? 0) with true by reflexivity. cbn [negb andb].
       rewrite N.eqb_refl. cbn [negb].
       eexists; eexists. split; [reflexivity|]. split; [|reflexivity].
-      split; [cbn [d_wlimit]; auto|]. cbn [d_out d_cw d_bytes d_rd]. rewrite Hr in Hd. repeat split; auto.
-      rewrite Hd, lenN_app. lia.
+      split; [cbn [d_wlimit d_cfg]; auto|]. cbn [d_out d_cw d_cwf d_bytes d_rd]. rewrite Hr in Hd.
+      split; [auto|]. split; [exact Hcw|]. rewrite Hd, lenN_app. lia.
   Qed.
 
-  (* one step of the copier of direction d keeps its own invariant and touches nothing else *)
-  Lemma copier_step_inv (d : nat) data pc sh :
+  (* one step of the copier of direction d keeps its own invariant and touches nothing else —
+     in particular its half-close never closes anything, whatever wraps the destination *)
+  Lemma copier_step_inv (d : nat) data cfg pc sh :
     sh_closed_a sh = false -> sh_closed_b sh = false ->
-    dinv data pc (if (d =? 0)%nat then sh_d0 sh else sh_d1 sh) ->
+    dinv data cfg pc (if (d =? 0)%nat then sh_d0 sh else sh_d1 sh) ->
     exists pc' D', copier_step CopyBuf d pc sh =
-                     (pc', set_d d sh D' (sh_wg sh - (nz pc - nz pc')) 0) /\ dinv data pc' D' /\ nz pc' <= nz pc.
+                     (pc', set_d d sh D' (sh_wg sh - (nz pc - nz pc')) 0) /\ dinv data cfg pc' D' /\ nz pc' <= nz pc.
   Proof.
     intros Hca Hcb Hd. unfold copier_step. rewrite Hca, Hcb.
     replace (if (d =? 0)%nat then false else false) with false by (destruct (d =? 0)%nat; reflexivity).
     destruct pc as [total| | | | | | |]; try (exfalso; exact (proj2 Hd)).
-    - destruct (loop_iter_inv data total _ Hd) as (pc' & D' & Hl & Hd' & Hnz). rewrite Hl.
+    - destruct (loop_iter_inv data cfg total _ Hd) as (pc' & D' & Hl & Hd' & Hnz). rewrite Hl.
       exists pc', D'. split; [|split; [exact Hd'|cbn [nz]; lia]]. cbn [nz]. rewrite Hnz. f_equal. f_equal. lia.
-    - destruct Hd as (Hwl & Ho & Hcw & Hb).
+    - destruct Hd as ((Hwl & Hcfg) & Ho & (Hcw & Hcwf) & Hb).
       set (D := if (d =? 0)%nat then sh_d0 sh else sh_d1 sh) in *.
-      exists PWg, {| d_rd := d_rd D; d_out := d_out D; d_wlimit := d_wlimit D; d_wshort := d_wshort D;
-                     d_cw := d_cw D + 1; d_bytes := d_bytes D; d_err := d_err D |}. split.
-      + cbn [nz]. replace (sh_wg sh - (1 - 1)) with (sh_wg sh) by lia. reflexivity.
-      + split; [|cbn [nz]; lia]. split; [cbn [d_wlimit]; auto|]. cbn [d_out d_cw d_bytes]. repeat split; auto. lia.
-    - destruct Hd as (Hwl & Ho & Hcw & Hb).
-      exists PDone, (if (d =? 0)%nat then sh_d0 sh else sh_d1 sh). split.
+      unfold half_close_step. cbn [nz]. replace (sh_wg sh - (1 - 1)) with (sh_wg sh) by lia.
+      pose proof (dispatch_never_closes (d_cfg D)) as Hnc.
+      destruct (close_write_dispatch (d_cfg D)) eqn:E; [| | |congruence]; rewrite Hcfg in E.
+      + eexists; eexists. split; [reflexivity|]. split; [|lia]. unfold d_with.
+        split; [cbn [d_wlimit d_cfg]; auto|]. cbn [d_out d_cw d_cwf d_bytes]. unfold ncw, ncwf. rewrite E.
+        split; [auto|]. split; [split; lia|exact Hb].
+      + eexists; eexists. split; [reflexivity|]. split; [|lia]. unfold d_with.
+        split; [cbn [d_wlimit d_cfg]; auto|]. cbn [d_out d_cw d_cwf d_bytes]. unfold ncw, ncwf. rewrite E.
+        split; [auto|]. split; [split; lia|exact Hb].
+      + exists PWg, D. split; [reflexivity|]. split; [|lia].
+        split; [auto|]. unfold ncw, ncwf. rewrite E. split; [auto|]. split; [split; lia|exact Hb].
+    - exists PDone, (if (d =? 0)%nat then sh_d0 sh else sh_d1 sh). split.
       + cbn [nz]. replace (sh_wg sh - (1 - 0)) with (sh_wg sh - 1) by lia. reflexivity.
-      + split; [|cbn [nz]; lia]. split; [cbn [d_wlimit]; auto|]. auto.
-    - destruct Hd as (Hwl & Ho & Hcw & Hb).
-      exists PDone, (if (d =? 0)%nat then sh_d0 sh else sh_d1 sh). split.
+      + split; [|cbn [nz]; lia]. exact Hd.
+    - exists PDone, (if (d =? 0)%nat then sh_d0 sh else sh_d1 sh). split.
       + cbn [nz]. replace (sh_wg sh - (0 - 0)) with (sh_wg sh) by lia.
         unfold set_d. destruct sh; destruct (d =? 0)%nat; cbn; f_equal; f_equal; lia.
-      + split; [|cbn [nz]; lia]. split; [cbn [d_wlimit]; auto|]. auto.
+      + split; [|cbn [nz]; lia]. exact Hd.
   Qed.
 
   Lemma minv_not_wait_done pm sh p0 p1 :
@@ -100,7 +118,7 @@ Section TcpProofs.
   Qed.
 
   Lemma Inv_intro sh p0 p1 pm :
-    dinv sA p0 (sh_d0 sh) -> dinv sB p1 (sh_d1 sh) -> sh_wg sh = nz p0 + nz p1 ->
+    dinv sA cB p0 (sh_d0 sh) -> dinv sB cA p1 (sh_d1 sh) -> sh_wg sh = nz p0 + nz p1 ->
     sh_io_after_close sh = 0 -> minv pm sh -> Inv (sh, [(0%nat, p0); (1%nat, p1); (2%nat, pm)]).
   Proof.
     intros Ha Hb Hc Hd He. exists p0, p1, pm. cbn [fst snd]. split; [reflexivity|].
@@ -136,7 +154,7 @@ Section TcpProofs.
         cbn [copier_step upd_nth]. apply Inv_intro; assumption.
       + destruct (minv_not_wait_done pm sh p0 p1 Hm Hwg (or_intror (or_introl Hcb))) as [-> ->].
         cbn [copier_step upd_nth]. apply Inv_intro; assumption.
-      + destruct (copier_step_inv 0 sA p0 sh Hca Hcb H0) as (pc' & D' & Hs & Hd' & Hle). rewrite Hs.
+      + destruct (copier_step_inv 0 sA cB p0 sh Hca Hcb H0) as (pc' & D' & Hs & Hd' & Hle). rewrite Hs.
         cbn [upd_nth].
         assert (Hnz : nz p0 - nz pc' <= nz p0 /\ nz p0 - (nz p0 - nz pc') = nz pc').
         { lia. }
@@ -153,7 +171,7 @@ Section TcpProofs.
         cbn [copier_step upd_nth]. apply Inv_intro; assumption.
       + destruct (minv_not_wait_done pm sh p0 p1 Hm Hwg (or_intror (or_introl Hcb))) as [-> ->].
         cbn [copier_step upd_nth]. apply Inv_intro; assumption.
-      + destruct (copier_step_inv 1 sB p1 sh Hca Hcb H1) as (pc' & D' & Hs & Hd' & Hle). rewrite Hs.
+      + destruct (copier_step_inv 1 sB cA p1 sh Hca Hcb H1) as (pc' & D' & Hs & Hd' & Hle). rewrite Hs.
         cbn [upd_nth].
         assert (Hnz : nz p1 - nz pc' <= nz p1 /\ nz p1 - (nz p1 - nz pc') = nz pc').
         { lia. }
@@ -169,10 +187,16 @@ Section TcpProofs.
       + cbn [upd_nth]. apply Inv_intro; auto.
       + destruct (sh_wg sh =? 0) eqn:Ew; cbn [upd_nth fst snd]; apply Inv_intro; auto.
         cbn [minv]. destruct Hm as (? & ? & ? & ? & ? & _). repeat split; auto. intros _. lia.
-      + cbn [upd_nth fst snd]. destruct Hm as (? & ? & ? & ? & ? & Hx). specialize (Hx eq_refl).
-        apply Inv_intro; auto. cbn [minv sh_wg sh_ncl_a sh_ncl_b sh_ret]. repeat split; auto; lia.
-      + cbn [upd_nth fst snd]. destruct Hm as (? & ? & ? & ?).
-        apply Inv_intro; auto. cbn [minv sh_wg sh_ncl_a sh_ncl_b sh_ret]. repeat split; auto; lia.
+      + destruct Hm as (? & ? & Hna & Hnb & ? & Hx). specialize (Hx eq_refl).
+        replace (d_cfg (sh_d1 sh)) with cA by (symmetry; exact (proj2 (proj1 H1))).
+        unfold ncl in *. destruct (close_reaches_endpoint cA) eqn:Ec; cbn [upd_nth fst snd];
+          apply Inv_intro; auto; cbn [minv sh_wg sh_ncl_a sh_ncl_b sh_ret]; unfold ncl; rewrite Ec;
+          repeat split; auto; lia.
+      + destruct Hm as (? & Hna & Hnb & ?).
+        replace (d_cfg (sh_d0 sh)) with cB by (symmetry; exact (proj2 (proj1 H0))).
+        destruct (close_reaches_endpoint cB) eqn:Ec; cbn [upd_nth fst snd];
+          apply Inv_intro; auto; cbn [minv sh_wg sh_ncl_a sh_ncl_b sh_ret]; unfold ncl at 2; rewrite Ec;
+          repeat split; auto; lia.
       + cbn [upd_nth fst snd]. destruct Hm as (? & ? & ? & ?).
         apply Inv_intro; auto. cbn [minv sh_wg sh_ncl_a sh_ncl_b sh_ret]. repeat split; auto; lia.
     - (* no such thread *)
@@ -180,15 +204,18 @@ Section TcpProofs.
   Qed.
 
   (* ---- consequences, for every schedule ---- *)
-  Definition no_write_fault (D : dirst) : Prop := d_wlimit D = None /\ d_out D = [] /\ d_cw D = 0 /\ d_err D = 0.
+  Definition no_write_fault (D : dirst) : Prop :=
+    d_wlimit D = None /\ d_out D = [] /\ d_cw D = 0 /\ d_cwf D = 0 /\ d_err D = 0.
 
   Lemma Inv_init D0 D1 :
     no_write_fault D0 -> no_write_fault D1 -> rest (t_rd (d_rd D0)) = sA -> rest (t_rd (d_rd D1)) = sB ->
+    d_cfg D0 = cB -> d_cfg D1 = cA ->
     Inv (tcp_init D0 D1).
   Proof.
-    intros (Hw0 & Ho0 & Hc0 & He0) (Hw1 & Ho1 & Hc1 & He1) HA HB. unfold tcp_init. apply Inv_intro; cbn [sh_d0 sh_d1 sh_wg sh_io_after_close nz minv sh_closed_a sh_closed_b sh_ncl_a sh_ncl_b sh_ret].
-    - split; [exact Hw0|]. rewrite Ho0, HA. cbn [app]. repeat split; auto.
-    - split; [exact Hw1|]. rewrite Ho1, HB. cbn [app]. repeat split; auto.
+    intros (Hw0 & Ho0 & Hc0 & Hf0 & He0) (Hw1 & Ho1 & Hc1 & Hf1 & He1) HA HB HcB HcA. unfold tcp_init.
+    apply Inv_intro; cbn [sh_d0 sh_d1 sh_wg sh_io_after_close nz minv sh_closed_a sh_closed_b sh_ncl_a sh_ncl_b sh_ret].
+    - split; [auto|]. rewrite Ho0, HA. cbn [app]. repeat split; auto.
+    - split; [auto|]. rewrite Ho1, HB. cbn [app]. repeat split; auto.
     - reflexivity.
     - reflexivity.
     - repeat split; auto. intros Hx; discriminate Hx.
@@ -196,14 +223,14 @@ Section TcpProofs.
 
   Theorem tcp_all_schedules D0 D1 (sched : list nat) :
     no_write_fault D0 -> no_write_fault D1 -> rest (t_rd (d_rd D0)) = sA -> rest (t_rd (d_rd D1)) = sB ->
+    d_cfg D0 = cB -> d_cfg D1 = cA ->
     Inv (run tsh (nat * tpc) (tstep CopyBuf) (tcp_init D0 D1) sched).
   Proof.
-    intros H0 H1 HA HB. apply (inv_all_schedules tsh (nat * tpc) (tstep CopyBuf) Inv Inv_step).
+    intros H0 H1 HA HB HcB HcA. apply (inv_all_schedules tsh (nat * tpc) (tstep CopyBuf) Inv Inv_step).
     apply Inv_init; assumption.
   Qed.
 
-  (* delivered bytes are always a prefix of what the source sent; nothing is closed and no I/O hits a closed
-     endpoint while a direction is still running; half-close happens exactly when a direction has finished *)
+  (* delivered bytes are always a prefix of what the source sent; no I/O ever hits a closed endpoint *)
   Lemma Inv_prefix s : Inv s ->
     (exists x, sA = d_out (sh_d0 (fst s)) ++ x) /\ (exists y, sB = d_out (sh_d1 (fst s)) ++ y) /\
     sh_io_after_close (fst s) = 0.
@@ -218,8 +245,9 @@ Section TcpProofs.
   Lemma Inv_returned s : Inv s -> sh_ret (fst s) = true ->
     d_out (sh_d0 (fst s)) = sA /\ d_out (sh_d1 (fst s)) = sB /\
     d_bytes (sh_d0 (fst s)) = lenN sA /\ d_bytes (sh_d1 (fst s)) = lenN sB /\
-    d_cw (sh_d0 (fst s)) = 1 /\ d_cw (sh_d1 (fst s)) = 1 /\
-    sh_ncl_a (fst s) = 1 /\ sh_ncl_b (fst s) = 1 /\ sh_io_after_close (fst s) = 0.
+    (d_cw (sh_d0 (fst s)) = ncw cB /\ d_cwf (sh_d0 (fst s)) = ncwf cB) /\
+    (d_cw (sh_d1 (fst s)) = ncw cA /\ d_cwf (sh_d1 (fst s)) = ncwf cA) /\
+    sh_ncl_a (fst s) = ncl cA /\ sh_ncl_b (fst s) = ncl cB /\ sh_io_after_close (fst s) = 0.
   Proof.
     intros (p0 & p1 & pm & _ & H0 & H1 & Hwg & Hio & Hm) Hret.
     assert (Hpm : pm = PDone).
@@ -227,25 +255,30 @@ Section TcpProofs.
         destruct Hm as (? & ? & ? & ?); congruence. }
     subst pm. cbn [minv] in Hm. destruct Hm as (Hz & Hna & Hnb & _).
     assert (p0 = PDone /\ p1 = PDone) as [-> ->] by (destruct p0, p1; cbn [nz] in Hwg; try lia; auto).
-    destruct H0 as (_ & ? & ? & ?). destruct H1 as (_ & ? & ? & ?). repeat split; assumption.
+    destruct H0 as (_ & ? & ? & ?). destruct H1 as (_ & ? & ? & ?). repeat split; tauto.
   Qed.
 
-  (* while the reverse direction is still running after one side finished: that side's peer has been
-     half-closed exactly once and NEITHER endpoint is closed *)
+  (* while at least one direction is still running: NEITHER endpoint is closed and no Close has reached either
+     endpoint — in particular the half-close performed by a finished direction closed nothing, for every
+     wrapper configuration; the half-close reached the endpoint exactly as its configuration dispatches *)
   Lemma Inv_half_close s p0 p1 pm : Inv s -> snd s = [(0%nat, p0); (1%nat, p1); (2%nat, pm)] ->
     (p0 <> PDone \/ p1 <> PDone) ->
     sh_closed_a (fst s) = false /\ sh_closed_b (fst s) = false /\
-    (p0 = PDone -> d_cw (sh_d0 (fst s)) = 1) /\ (p1 = PDone -> d_cw (sh_d1 (fst s)) = 1).
+    sh_ncl_a (fst s) = 0 /\ sh_ncl_b (fst s) = 0 /\
+    (p0 = PDone -> d_cw (sh_d0 (fst s)) = ncw cB /\ d_cwf (sh_d0 (fst s)) = ncwf cB) /\
+    (p1 = PDone -> d_cw (sh_d1 (fst s)) = ncw cA /\ d_cwf (sh_d1 (fst s)) = ncwf cA).
   Proof.
     intros (q0 & q1 & qm & Hls & H0 & H1 & Hwg & Hio & Hm) Hs Hrun. rewrite Hls in Hs.
     inversion Hs; subst q0 q1 qm; clear Hs.
     assert (Hw : sh_wg (fst s) <> 0) by (destruct p0, p1; cbn [nz] in Hwg; try lia; destruct Hrun; congruence).
-    assert (Hc : sh_closed_a (fst s) = false /\ sh_closed_b (fst s) = false).
+    assert (Hc : sh_closed_a (fst s) = false /\ sh_closed_b (fst s) = false /\ sh_ncl_a (fst s) = 0 /\ sh_ncl_b (fst s) = 0).
     { destruct pm; cbn [minv] in Hm; try tauto; try (destruct Hm as (? & ? & ? & ? & ? & ?); auto);
         destruct Hm as (Hz & _); congruence. }
-    destruct Hc as [Hca Hcb]. repeat split; auto.
-    - intros ->. destruct H0 as (_ & _ & ? & _). assumption.
-    - intros ->. destruct H1 as (_ & _ & ? & _). assumption.
+    destruct Hc as (Hca & Hcb & Hna & Hnb). repeat split; auto.
+    - intros ->. destruct H0 as (_ & _ & (? & _) & _). assumption.
+    - intros ->. destruct H0 as (_ & _ & (_ & ?) & _). assumption.
+    - intros ->. destruct H1 as (_ & _ & (? & _) & _). assumption.
+    - intros ->. destruct H1 as (_ & _ & (_ & ?) & _). assumption.
   Qed.
 End TcpProofs.
 Close Scope N_scope.
